@@ -96,7 +96,7 @@ class MemFS:
 class C19(Check):
     ID = 'C19'
     LEVEL = 'exploration'
-    BUDGET = {'quick': 30, 'thorough': 240}
+    BUDGET = {'quick': 75, 'thorough': 240}
     RULE = ('case = (object list spec: count, string alphabet (plain / JSON-special incl. \\n \\r " \\\\ NUL U+2028 / Latin-1 / BMP / astral), '
             'max string length, padding 0..3 so chunk boundaries hit every offset mod 4, data seed; compression None/gzip/zstd; '
             'transport: dump|load operators on a stream, re-framed stream, file path, file object, custom open_obj in-memory FS). '
@@ -118,11 +118,11 @@ class C19(Check):
         return self.tmp
 
     def generate(self, rng, tier, shard, nshards):
-        n = 170 if tier == 'quick' else 10 ** 7
+        n = 150 if tier == 'quick' else 10 ** 7
         comps = [None, 'gzip', 'zstd']
         modes = ['stream', 'reframed', 'path', 'fileobj', 'open_obj', 'whole']
         for k in range(n):
-            if k % 40 == 20:
+            if k % 40 == 4:
                 # (codec, identical records?, one long string): a 64 KiB compressed read chunk inflating to > 2 MiB needs
                 # a ratio above 32, i.e. identical records or a multi-MiB run inside one string
                 j = k // 40
